@@ -155,6 +155,16 @@ func hash64(s string) uint64 {
 	return h
 }
 
+// activeProp is the property this run decides (env VERIF_PROP, set by bin/check): monitors that
+// belong to another property's statement are evaluated only when that property is checked.
+var activeProp = os.Getenv("VERIF_PROP")
+
+func (o *out) failFor(prop, kind, detail string) {
+	if activeProp == "" || activeProp == prop {
+		o.fail(kind, detail)
+	}
+}
+
 // fail records a monitor / oracle failure: kind is a short class, detail is a replayable description.
 func (o *out) fail(kind, detail string) {
 	o.nfail++
